@@ -794,7 +794,8 @@ func confirmHang(spec *meta.Spec, tier string, base uint64, h *hangInfo) (string
 // (not parked) in the dump.
 func hangSite(stack string) string {
 	for _, g := range strings.Split(stack, "\n\n") {
-		if !strings.Contains(g, "[running]") && !strings.Contains(g, "[runnable]") {
+		// ("[running]", or inside a synctest bubble "[running, synctest bubble 7]")
+		if !strings.Contains(g, "[running") && !strings.Contains(g, "[runnable") {
 			continue
 		}
 		for _, l := range strings.Split(g, "\n") {
@@ -803,6 +804,21 @@ func hangSite(stack string) string {
 					l = l[:i]
 				}
 				return l
+			}
+		}
+	}
+	// Nobody runs: a goroutine waiting for a lock inside the library (a lock
+	// is not something a fake clock or a closing peer ever releases).
+	for _, g := range strings.Split(stack, "\n\n") {
+		if !strings.Contains(g, "[sync.Mutex.Lock") && !strings.Contains(g, "[sync.RWMutex") && !strings.Contains(g, "[semacquire") {
+			continue
+		}
+		for _, l := range strings.Split(g, "\n") {
+			if strings.HasPrefix(l, "github.com/gobwas/ws") {
+				if i := strings.LastIndex(l, "("); i > 0 {
+					l = l[:i]
+				}
+				return l + " (waiting for a lock)"
 			}
 		}
 	}
